@@ -306,7 +306,8 @@ Inductive stmt :=
 | SSetObj (f : ofam) (pid : nat) (o v : expr)  (* set the <property pid> of <sound / sprite / cast> o to v *)
 | SSetThe (k : thekind) (i : nat) (v : expr)   (* set the <special / system property i> to v (5D 00 / 5D 07) *)
 | SSetAcc (n : nat) (o v : expr)               (* set the <names[n]> of o to v (62 n) *)
-| SSetMenu (pid : nat) (it mn v : expr).       (* set the <property pid> of menuItem it of menu mn to v (5D 03) *)
+| SSetMenu (pid : nat) (it mn v : expr)        (* set the <property pid> of menuItem it of menu mn to v (5D 03) *)
+| SExit.                                       (* exit, written out (01; the compiler appends its own at the end of the handler) *)
 
 Definition compile_store (t : target) : bytes :=
   match t with
@@ -325,6 +326,7 @@ Definition compile_s (s : stmt) : bytes :=
   | SSetThe k i v => compile_e v ++ compile_int (the_num k i) ++ [b 93; b (the_code k)]
   | SSetAcc n o v => compile_e o ++ compile_e v ++ [b 98; b (Z.of_nat n)]
   | SSetMenu pid it mn v => compile_e it ++ compile_e mn ++ compile_e v ++ compile_int (Z.of_nat pid) ++ [b 93; b 3]
+  | SExit => [b 1]
   end.
 Definition ninstr_s (s : stmt) : nat :=
   match s with
@@ -334,6 +336,7 @@ Definition ninstr_s (s : stmt) : nat :=
   | SSetThe _ _ v => (ninstr v + 2)%nat
   | SSetAcc _ o v => (ninstr o + (ninstr v + 1))%nat
   | SSetMenu _ it mn v => (ninstr it + (ninstr mn + (ninstr v + 2)))%nat
+  | SExit => 1%nat
   end.
 
 (* the declared properties of the script, as the parser's context holds them *)
@@ -379,6 +382,7 @@ Definition reify_s (en : env) (props : list string) (pc : Z) (s : stmt) : node :
     Stmt ps (Binary "assign" ps
       (Accessor ps (MenuItemAcc ps (ObjRef KMenu (name_of mnode) ps mnode) (ObjRef KMenuItem (name_of i) ps i)) (nth pid MENUITEM_PROPERTIES ""))
       (reify_e en pv v))
+  | SExit => Stmt pc (Call "exit" pc None true false false)
   end.
 
 Definition globals_s (en : env) (pc : Z) (s : stmt) : list node :=
@@ -390,6 +394,7 @@ Definition globals_s (en : env) (pc : Z) (s : stmt) : list node :=
   | SSetAcc _ o v => globals_e en pc o ++ globals_e en (pc + zlen (compile_e o)) v
   | SSetMenu _ it mn v =>
     globals_e en pc it ++ globals_e en (pc + zlen (compile_e it)) mn ++ globals_e en (pc + zlen (compile_e it) + zlen (compile_e mn)) v
+  | SExit => []
   end.
 
 Definition wf_target (en : env) (t : target) : Prop :=
@@ -407,6 +412,7 @@ Definition wf_s (en : env) (s : stmt) : Prop :=
   | SSetThe k i v => (k = TSpecial \/ k = TSystem) /\ (i < List.length (the_table k))%nat /\ wf_e en v
   | SSetAcc n o v => (n < List.length (e_names en))%nat /\ Z.of_nat n < 256 /\ wf_e en o /\ wf_e en v
   | SSetMenu pid it mn v => (pid < List.length MENUITEM_PROPERTIES)%nat /\ wf_e en it /\ wf_e en mn /\ wf_e en v
+  | SExit => True
   end.
 
 (* a straight-line handler: its statements, then the handler's exit opcode *)
